@@ -1272,3 +1272,560 @@ Proof.
       * rewrite managed_plain by exact S. exact INm.
       * intros r Hr. apply attr_ok_plain; try assumption. apply IA. exact Hr.
 Qed.
+
+(* ------------------------------------------------------------------ the model's chain is the resolved chain *)
+Lemma rchain_rch l : chain l -> wfc l -> rchain l = rch l.
+Proof.
+  induction l as [|k t IH]; intros C W; [reflexivity|].
+  simpl rchain. pose proof (IH (chain_tail _ _ C) (proj2 W)) as E.
+  assert (ND : NoDup (map r_name (inh (rchain t)))).
+  { rewrite E, inh_mattrs.
+    destruct (InvO_chain t (chain_tail _ _ C) (proj2 W)) as [_ [_ [N _]]].
+    rewrite N. unfold managed. apply NoDup_nodup_first. }
+  rewrite (resolve_one_chain k t C ND). rewrite E. reflexivity.
+Qed.
+
+Lemma find_cls_rch l1 : forall k l2,
+  chain (l1 ++ k :: l2) -> find_cls (k_id k) (rch (l1 ++ k :: l2)) = Some (rone k (rch l2)).
+Proof.
+  induction l1 as [|x t IH]; intros k l2 C.
+  - simpl. unfold find_cls. simpl. rewrite Nat.eqb_refl. reflexivity.
+  - simpl app. simpl rch. unfold find_cls. simpl find.
+    destruct (k_id x =? k_id k) eqn:E.
+    + apply Nat.eqb_eq in E. destruct C as [C _]. exfalso. apply C. rewrite E.
+      rewrite map_app. apply in_app_iff. right. left. reflexivity.
+    + apply IH. exact (chain_tail _ _ C).
+Qed.
+
+Lemma chain_app_r l1 l2 : chain (l1 ++ l2) -> chain l2.
+Proof. induction l1 as [|x t IH]; simpl; intro C; [exact C | apply IH; apply C]. Qed.
+
+Lemma wfc_app_r l1 l2 : wfc (l1 ++ l2) -> wfc l2.
+Proof. induction l1 as [|x t IH]; simpl; intro C; [exact C | apply IH; apply C]. Qed.
+
+(* splitting a chain at its first spec class *)
+Lemma meta_anc_split l :
+  exists pre, l = pre ++ meta_anc l /\ (forall c, In c pre -> is_spec c = false).
+Proof.
+  induction l as [|k t [pre [E P]]].
+  - exists []. split; [reflexivity | intros c []].
+  - simpl meta_anc. destruct (is_spec k) eqn:S.
+    + exists []. split; [reflexivity | intros c []].
+    + exists (k :: pre). split; [simpl; f_equal; exact E|].
+      intros c [H|H]; [subst; exact S | apply P; exact H].
+Qed.
+
+(* ------------------------------------------------------------------ suffixes of a chain *)
+Lemma owner_in_l l a o : owner l a = Some o -> In o (map k_id l).
+Proof.
+  induction l as [|k t IH]; [discriminate|].
+  rewrite owner_cons. destruct (declares k a).
+  - intro H. injection H as H. left. exact H.
+  - intro H. right. apply IH. exact H.
+Qed.
+
+Lemma owner_cls_suffix l1 l2 a o :
+  chain (l1 ++ l2) -> owner (l1 ++ l2) a = Some o -> In o (map k_id l2) ->
+  owner_cls (l1 ++ l2) a = owner_cls l2 a.
+Proof.
+  induction l1 as [|x t IH]; intros C O H; [reflexivity|].
+  simpl app in *. rewrite owner_cls_cons. rewrite owner_cons in O.
+  destruct (declares x a).
+  - injection O as O. exfalso. destruct C as [C _]. apply C. rewrite O.
+    rewrite map_app. apply in_app_iff. right. exact H.
+  - apply IH; [exact (chain_tail _ _ C) | exact O | exact H].
+Qed.
+
+Lemma managed_decl l a : In a (managed l) -> exists c, In c l /\ In a (decl_names c).
+Proof.
+  induction l as [|k t IH]; [intros []|].
+  destruct (is_spec k) eqn:S.
+  - rewrite managed_cons by exact S. rewrite in_app_iff. intros [H|H].
+    + destruct (IH H) as [c [Hc Ha]]. exists c. split; [right; exact Hc | exact Ha].
+    + apply filter_In in H. destruct H as [H _]. apply (proj1 (In_nodup_first _ _)) in H.
+      exists k. split; [left; reflexivity | exact H].
+  - rewrite managed_plain by exact S. intro H.
+    destruct (IH H) as [c [Hc Ha]]. exists c. split; [right; exact Hc | exact Ha].
+Qed.
+
+Lemma decl_names_spec c a : In a (decl_names c) -> is_spec c = true.
+Proof. unfold decl_names. destruct (is_spec c); [reflexivity | intros []]. Qed.
+
+Lemma owner_prefix l1 l2 a o :
+  owner (l1 ++ l2) a = Some o -> (exists c, In c l1 /\ declares c a = true) -> In o (map k_id l1).
+Proof.
+  induction l1 as [|x t IH]; intros O [c [Hc D]]; [contradiction|].
+  simpl app in O. rewrite owner_cons in O. destruct (declares x a) eqn:Dx.
+  - injection O as O. left. exact O.
+  - right. apply IH; [exact O|]. destruct Hc as [Hc|Hc]; [subst; congruence|]. exists c. split; assumption.
+Qed.
+
+Lemma managed_owned_suffix l1 pc l2 a :
+  chain (l1 ++ pc :: l2) -> In a (managed (l1 ++ pc :: l2)) ->
+  owner (l1 ++ pc :: l2) a = Some (k_id pc) -> In a (managed (pc :: l2)).
+Proof.
+  intros C Hm O. destruct (managed_decl _ _ Hm) as [c [Hc Ha]].
+  apply in_app_iff in Hc. destruct Hc as [Hc|Hc].
+  - exfalso. assert (Hi : In (k_id pc) (map k_id l1)).
+    { apply (owner_prefix l1 (pc :: l2) a); [exact O|]. exists c. split; [exact Hc|].
+      apply declares_decl; [apply (decl_names_spec c a Ha) | exact Ha]. }
+    apply chain_NoDup in C. rewrite map_app in C. apply NoDup_remove_2 in C.
+    apply C. apply in_app_iff. left. exact Hi.
+  - apply (decl_in_managed (pc :: l2) c a Hc Ha).
+Qed.
+
+Lemma managed_suffix l1 l2 a : In a (managed l2) -> In a (managed (l1 ++ l2)).
+Proof.
+  intro H. destruct (managed_decl _ _ H) as [c [Hc Ha]].
+  apply (decl_in_managed (l1 ++ l2) c a); [apply in_app_iff; right; exact Hc | exact Ha].
+Qed.
+
+Lemma assoc_app {B} a (l1 l2 : list (nat * B)) :
+  assoc a (l1 ++ l2) = match assoc a l1 with Some v => Some v | None => assoc a l2 end.
+Proof.
+  induction l1 as [|[k v] t IH]; simpl; [reflexivity|]. destruct (k =? a); [reflexivity | exact IH].
+Qed.
+
+(* ------------------------------------------------------------------ the constructor on a chain *)
+Definition lift (x : res (list (aid * aval))) (s : st) : res st :=
+  match x with Ok d => Ok (mkst d (s_post s) (s_hand s)) | Err e => Err e end.
+
+Lemma fold_err {A B} (f : res A -> B -> res A) l e :
+  (forall b, f (Err e) b = Err e) -> fold_left f l (Err e) = Err e.
+Proof. intro H. induction l as [|x t IH]; simpl; [reflexivity | rewrite H; exact IH]. Qed.
+
+Section Sim.
+  Variable ks : list cdesc.
+  Hypothesis C : chain ks.
+  Hypothesis W : wfc ks.
+  Variable M : rmeta.
+  Hypothesis HM : nearest_meta (rch ks) = Some M.
+  Variable kw1 : list (aid * aval).
+
+  Lemma M_inv : m_key M = key_of ks /\ m_ovf M = ovf_of ks
+                /\ map r_name (m_attrs M) = managed ks
+                /\ forall r, In r (m_attrs M) -> attr_ok ks r.
+  Proof. pose proof (InvO_chain ks C W) as I. unfold InvO in I. rewrite HM in I. exact I. Qed.
+
+  Lemma M_names : map r_name (m_attrs M) = managed ks.
+  Proof. apply M_inv. Qed.
+
+  Lemma M_NoDup : NoDup (map r_name (m_attrs M)).
+  Proof. rewrite M_names. unfold managed. apply NoDup_nodup_first. Qed.
+
+  Lemma M_attr r : In r (m_attrs M) -> attr_ok ks r.
+  Proof. apply M_inv. Qed.
+
+  Lemma M_find r : In r (m_attrs M) -> find_attr (r_name r) (m_attrs M) = Some r.
+  Proof. apply In_find_attr. exact M_NoDup. Qed.
+
+  Lemma M_find_managed a : find_attr a (m_attrs M) = None <-> ~ In a (managed ks).
+  Proof. rewrite find_attr_None, M_names. tauto. Qed.
+
+  (* one assignment *)
+  Lemma set_attr_assign a v s :
+    set_attr M a (Some v) s = lift (assign ks a v (s_dict s)) s.
+  Proof.
+    unfold set_attr, assign. destruct (find_attr a (m_attrs M)) as [r|] eqn:F.
+    - apply find_attr_Some in F. destruct F as [F1 F2].
+      assert (Hm : memb a (managed ks) = true).
+      { apply memb_In. rewrite <- M_names, <- F2. apply in_map. exact F1. }
+      rewrite Hm. destruct (M_attr r F1) as [T [_ [_ [P _]]]]. rewrite F2 in T, P. rewrite T, P.
+      destruct (prepare_value (ty_of ks a) (prep_of ks a) v); reflexivity.
+    - apply M_find_managed in F. apply memb_false in F. rewrite F. reflexivity.
+  Qed.
+
+  (* the value an owned attribute receives *)
+  Lemma value_sim r kwm :
+    In r (m_attrs M) -> kw_get (r_name r) kwm = assoc (r_name r) kw1 ->
+    match kw_get (r_name r) kwm with
+    | Some v => Some v
+    | None => lookup_default (rch ks) r
+    end = value_of ks kw1 (r_name r).
+  Proof.
+    intros H K. unfold value_of. rewrite K. destruct (assoc (r_name r) kw1); [reflexivity|].
+    destruct (M_attr r H) as [_ [_ [O [_ [I1 _]]]]]. unfold lookup_default. rewrite I1, O. reflexivity.
+  Qed.
+
+  Definition sel (p : cid) (a : aid) : bool := opt_eqb (owner ks a) p && accepted ks a.
+
+  Lemma sel_attr r p : In r (m_attrs M) ->
+    sel p (r_name r) = (r_owner r =? p) && r_init r && negb (opt_eqb (m_ovf M) (r_name r)).
+  Proof.
+    intro H. destruct (M_attr r H) as [_ [N [O _]]]. destruct M_inv as [_ [OV _]].
+    unfold sel, accepted. rewrite O, <- N, <- OV. simpl opt_eqb.
+    assert (Hm : memb (r_name r) (managed ks) = true).
+    { apply memb_In. rewrite <- M_names. apply in_map. exact H. }
+    rewrite Hm. simpl. rewrite andb_assoc. reflexivity.
+  Qed.
+
+  Definition spec_step (acc : res (list (aid * aval))) (a : aid) : res (list (aid * aval)) :=
+    match acc with
+    | Err e => Err e
+    | Ok d => match value_of ks kw1 a with Some v => assign ks a v d | None => Ok d end
+    end.
+
+  Lemma own_fold p kwm L : forall s,
+    (forall r, In r L -> In r (m_attrs M)) ->
+    (forall r, In r L -> sel p (r_name r) = true ->
+               match kw_get (r_name r) kwm with Some v => Some v | None => lookup_default (rch ks) r end
+               = value_of ks kw1 (r_name r)) ->
+    fold_left (fun acc r =>
+                 match acc with
+                 | Err e => Err e
+                 | Ok s =>
+                     if negb (r_init r) || negb (r_owner r =? p) || opt_eqb (m_ovf M) (r_name r) then Ok s
+                     else match (match kw_get (r_name r) kwm with
+                                 | Some v => Some v
+                                 | None => lookup_default (rch ks) r end) with
+                          | Some v => set_attr M (r_name r) (Some v) s
+                          | None => Ok s end
+                 end) L (Ok s)
+    = lift (fold_left spec_step (filter (sel p) (map r_name L)) (Ok (s_dict s))) s.
+  Proof.
+    induction L as [|r t IH]; intros s HL HV.
+    - simpl. destruct s; reflexivity.
+    - simpl fold_left at 1. simpl map. simpl filter.
+      assert (Hr : In r (m_attrs M)) by (apply HL; left; reflexivity).
+      rewrite (sel_attr r p Hr).
+      destruct (r_owner r =? p) eqn:E1; destruct (r_init r) eqn:E2;
+        destruct (opt_eqb (m_ovf M) (r_name r)) eqn:E3; simpl;
+        try (apply IH; [intros x Hx; apply HL; right; exact Hx | intros x Hx; apply HV; right; exact Hx]).
+      assert (SV : sel p (r_name r) = true) by (rewrite (sel_attr r p Hr), E1, E2, E3; reflexivity).
+      rewrite (HV r (or_introl eq_refl) SV).
+      destruct (value_of ks kw1 (r_name r)) as [v|].
+      + rewrite set_attr_assign. destruct (assign ks (r_name r) v (s_dict s)) as [d|e]; simpl.
+        * rewrite (IH (mkst d (s_post s) (s_hand s))); [reflexivity | |].
+          -- intros x Hx; apply HL; right; exact Hx.
+          -- intros x Hx; apply HV; right; exact Hx.
+        * rewrite !fold_err by reflexivity. reflexivity.
+      + apply IH; [intros x Hx; apply HL; right; exact Hx | intros x Hx; apply HV; right; exact Hx].
+  Qed.
+
+  Lemma own_loop_sim p kwm s :
+    (forall r, In r (m_attrs M) -> sel p (r_name r) = true ->
+               match kw_get (r_name r) kwm with Some v => Some v | None => lookup_default (rch ks) r end
+               = value_of ks kw1 (r_name r)) ->
+    own_loop (rch ks) M p kwm s
+    = lift (fold_left spec_step (filter (sel p) (managed ks)) (Ok (s_dict s))) s.
+  Proof.
+    intro HV. unfold own_loop. rewrite <- M_names. apply own_fold; [tauto | exact HV].
+  Qed.
+  (* ---- the inner loop of the parent loop: keywords for one parent *)
+  Definition psel (p : cid) (a : aid) : bool :=
+    match find_attr a (m_attrs M) with
+    | Some ir => (r_owner ir =? p) && r_init ir && negb (opt_eqb (m_ovf M) a)
+    | None => false
+    end.
+
+  Lemma psel_sel p r : In r (m_attrs M) -> psel p (r_name r) = sel p (r_name r).
+  Proof. intro H. unfold psel. rewrite (M_find r H). symmetry. apply sel_attr. exact H. Qed.
+
+  Definition pentry (p : cid) (kw0 : kwargs) (a : aid) : kwargs :=
+    if psel p a then
+      match kw_get a kw0 with
+      | Some v => [(a, Some v)]
+      | None => match find_attr a (m_attrs M) with
+                | Some ir => match lookup_default (rch ks) ir with
+                             | Some dv => [(a, Some dv)] | None => [] end
+                | None => [] end
+      end
+    else [].
+
+  Definition kdel (p : cid) (kw0 : kwargs) (a : aid) (kw : kwargs) : kwargs :=
+    if psel p a && opt_is (kw_get a kw0) then assoc_del a kw else kw.
+
+  Definition inner_step (p : cid) (acc : res (kwargs * kwargs)) (pr : rattr) : res (kwargs * kwargs) :=
+    match acc with
+    | Err e => Err e
+    | Ok (pkw, kw) =>
+        match find_attr (r_name pr) (m_attrs M) with
+        | None => Err KeyErr
+        | Some ir =>
+            if negb (r_owner ir =? p)
+               || (negb (q_pass_noninit cur) && negb (r_init ir))
+               || (negb (q_pop_ovf cur) && opt_eqb (m_ovf M) (r_name ir))
+            then Ok (pkw, kw)
+            else match (match assoc (r_name pr) kw with
+                        | Some None => if q_fwd_missing cur then Some None else None
+                        | o => o end) with
+                 | Some v => Ok (pkw ++ [(r_name pr, v)], assoc_del (r_name pr) kw)
+                 | None => match lookup_default (rch ks) ir with
+                           | Some dv => Ok (pkw ++ [(r_name pr, Some dv)], kw)
+                           | None => Ok (pkw, kw)
+                           end
+                 end
+        end
+    end.
+
+  Lemma inner_step_eq p kw0 pkw kwc pr :
+    In (r_name pr) (managed ks) -> assoc (r_name pr) kwc = assoc (r_name pr) kw0 ->
+    inner_step p (Ok (pkw, kwc)) pr
+    = Ok (pkw ++ pentry p kw0 (r_name pr), kdel p kw0 (r_name pr) kwc).
+  Proof.
+    intros Hin EA. unfold inner_step.
+    destruct (find_attr (r_name pr) (m_attrs M)) as [ir|] eqn:F;
+      [|apply M_find_managed in F; contradiction].
+    pose proof (find_attr_Some _ _ _ F) as [Fi Fn].
+    unfold pentry, kdel, psel. rewrite F, Fn. simpl q_pass_noninit. simpl q_pop_ovf. simpl q_fwd_missing.
+    simpl negb at 2 4. rewrite !andb_true_l.
+    destruct (r_owner ir =? p) eqn:E1; destruct (r_init ir) eqn:E2;
+      destruct (opt_eqb (m_ovf M) (r_name pr)) eqn:E3; simpl; try (rewrite app_nil_r; reflexivity).
+    unfold kw_get. rewrite EA.
+    destruct (assoc (r_name pr) kw0) as [[v|]|] eqn:A; simpl; try reflexivity;
+      destruct (lookup_default (rch ks) ir) as [dv|]; try reflexivity; rewrite app_nil_r; reflexivity.
+  Qed.
+
+  Lemma kdel_other p kw0 a kw b : b <> a -> assoc b (kdel p kw0 a kw) = assoc b kw.
+  Proof.
+    intro N. unfold kdel. destruct (psel p a && opt_is (kw_get a kw0)); [|reflexivity].
+    apply assoc_del_other. exact N.
+  Qed.
+
+  Lemma inner_fold p kw0 L : forall pkw0 kwc,
+    NoDup (map r_name L) ->
+    (forall pr, In pr L -> In (r_name pr) (managed ks)) ->
+    (forall pr, In pr L -> assoc (r_name pr) kwc = assoc (r_name pr) kw0) ->
+    fold_left (inner_step p) L (Ok (pkw0, kwc))
+    = Ok (pkw0 ++ flat_map (fun pr => pentry p kw0 (r_name pr)) L,
+          fold_left (fun kw pr => kdel p kw0 (r_name pr) kw) L kwc).
+  Proof.
+    induction L as [|pr t IH]; intros pkw0 kwc ND HM' HA.
+    - simpl. rewrite app_nil_r. reflexivity.
+    - inversion ND as [|? ? Hx NDt]; subst.
+      cbn [fold_left flat_map].
+      rewrite (inner_step_eq p kw0 pkw0 kwc pr) by (try (apply HM'; left; reflexivity); apply HA; left; reflexivity).
+      rewrite IH; [rewrite <- app_assoc; reflexivity | exact NDt | intros x Hx'; apply HM'; right; exact Hx' |].
+      intros pr' Hp. rewrite kdel_other; [apply HA; right; exact Hp|].
+      intro E. apply Hx. rewrite <- E. apply in_map. exact Hp.
+  Qed.
+  Lemma pentry_names p kw0 b x : In x (pentry p kw0 b) -> fst x = b /\ psel p b = true.
+  Proof.
+    unfold pentry. destruct (psel p b); [|intros []].
+    destruct (kw_get b kw0).
+    - intros [H|[]]. subst x. split; reflexivity.
+    - destruct (find_attr b (m_attrs M)); [|intros []].
+      destruct (lookup_default (rch ks) r); [|intros []].
+      intros [H|[]]. subst x. split; reflexivity.
+  Qed.
+
+  Lemma assoc_pentry_other p kw0 b a : a <> b -> assoc a (pentry p kw0 b) = None.
+  Proof.
+    intro N. apply assoc_none_notin. intro H. apply in_map_iff in H. destruct H as [x [E H]].
+    apply pentry_names in H. destruct H as [H _]. apply N. rewrite <- E. exact H.
+  Qed.
+
+  Lemma assoc_pentries p kw0 L a :
+    assoc a (flat_map (fun pr => pentry p kw0 (r_name pr)) L)
+    = if memb a (map r_name L) then assoc a (pentry p kw0 a) else None.
+  Proof.
+    induction L as [|pr t IH]; [reflexivity|].
+    cbn [flat_map map]. rewrite assoc_app.
+    change (memb a (r_name pr :: map r_name t)) with ((a =? r_name pr) || memb a (map r_name t)).
+    destruct (a =? r_name pr) eqn:E.
+    - apply Nat.eqb_eq in E. subst a. simpl orb.
+      destruct (assoc (r_name pr) (pentry p kw0 (r_name pr))) eqn:A; [reflexivity|].
+      rewrite IH. destruct (memb (r_name pr) (map r_name t)); reflexivity.
+    - apply Nat.eqb_neq in E. rewrite (assoc_pentry_other p kw0 (r_name pr) a E). simpl orb. exact IH.
+  Qed.
+
+  Definition is_ph (ph : kwargs) : Prop := ph = [] \/ exists ka, ph = [(ka, None)].
+
+  Lemma pkw_value p kw0 L ph r :
+    In r (m_attrs M) -> sel p (r_name r) = true -> In (r_name r) (map r_name L) -> is_ph ph ->
+    match kw_get (r_name r) (flat_map (fun pr => pentry p kw0 (r_name pr)) L ++ ph) with
+    | Some v => Some v | None => lookup_default (rch ks) r end
+    = match kw_get (r_name r) kw0 with
+      | Some v => Some v | None => lookup_default (rch ks) r end.
+  Proof.
+    intros Hr S Hin PH. unfold kw_get at 1. rewrite assoc_app, assoc_pentries.
+    apply (proj2 (memb_In _ _)) in Hin. rewrite Hin.
+    unfold pentry. rewrite (psel_sel p r Hr), S, (M_find r Hr).
+    destruct (kw_get (r_name r) kw0) as [v|]; [simpl; rewrite Nat.eqb_refl; reflexivity|].
+    destruct (lookup_default (rch ks) r) as [dv|]; [simpl; rewrite Nat.eqb_refl; reflexivity|].
+    simpl assoc at 1. destruct PH as [PH|[ka PH]]; subst ph; [reflexivity|].
+    simpl. destruct (ka =? r_name r); reflexivity.
+  Qed.
+
+  Definition content (kw : kwargs) : list (aid * aval) :=
+    flat_map (fun p => if is_unknown cur M (fst p)
+                       then match snd p with Some v => [(fst p, v)] | None => [] end
+                       else []) kw.
+
+  Lemma content_assoc_del a kw : is_unknown cur M a = false -> content (assoc_del a kw) = content kw.
+  Proof.
+    intro U. unfold content. induction kw as [|[k v] t IH]; [reflexivity|].
+    simpl assoc_del. destruct (k =? a) eqn:E.
+    - apply Nat.eqb_eq in E. subst k. cbn [flat_map fst]. rewrite U. exact IH.
+    - cbn [flat_map]. rewrite IH. reflexivity.
+  Qed.
+
+  Lemma psel_known p a : psel p a = true -> is_unknown cur M a = false.
+  Proof.
+    unfold psel, is_unknown. destruct (find_attr a (m_attrs M)) as [ir|]; [|discriminate].
+    simpl q_drop_noninit_ovf. intro H. apply andb_prop in H. destruct H as [H H3].
+    apply andb_prop in H. destruct H as [_ H2]. rewrite H2. simpl.
+    destruct (opt_eqb (m_ovf M) a); [discriminate | reflexivity].
+  Qed.
+
+  Lemma kdel_fold p kw0 L : forall kwc,
+    (forall b, psel p b = false ->
+               assoc b (fold_left (fun kw pr => kdel p kw0 (r_name pr) kw) L kwc) = assoc b kwc)
+    /\ content (fold_left (fun kw pr => kdel p kw0 (r_name pr) kw) L kwc) = content kwc.
+  Proof.
+    induction L as [|pr t IH]; intro kwc; [split; reflexivity|].
+    cbn [fold_left]. destruct (IH (kdel p kw0 (r_name pr) kwc)) as [I1 I2]. split.
+    - intros b Hb. rewrite I1 by exact Hb. unfold kdel.
+      destruct (psel p (r_name pr)) eqn:P; simpl; [|reflexivity].
+      destruct (opt_is (kw_get (r_name pr) kw0)); [|reflexivity].
+      apply assoc_del_other. intro E. subst b. congruence.
+    - rewrite I2. unfold kdel.
+      destruct (psel p (r_name pr)) eqn:P; simpl; [|reflexivity].
+      destruct (opt_is (kw_get (r_name pr) kw0)); [|reflexivity].
+      apply content_assoc_del. apply (psel_known p). exact P.
+  Qed.
+
+  Lemma wrapper_pkw pm p kw0 ph :
+    (forall pr, In pr (m_attrs pm) -> psel p (r_name pr) = true ->
+                opt_is (m_ovf pm) = true \/ opt_eqb (m_key pm) (r_name pr) = true
+                \/ memb (r_name pr) (valid_kwargs pm) = true) ->
+    (ph = [] \/ exists ka, ph = [(ka, None)] /\ m_key pm = Some ka) ->
+    wrapper_ok pm (flat_map (fun pr => pentry p kw0 (r_name pr)) (m_attrs pm) ++ ph) = true.
+  Proof.
+    intros V PH. unfold wrapper_ok. destruct (opt_is (m_ovf pm)) eqn:O; [reflexivity|]. simpl.
+    apply forallb_forall. intros x Hx. apply in_app_iff in Hx. destruct Hx as [Hx|Hx].
+    - apply in_flat_map in Hx. destruct Hx as [pr [Hp Hx]].
+      apply pentry_names in Hx. destruct Hx as [E P]. destruct x as [xa xv]. simpl in E. subst xa. simpl fst.
+      destruct (V pr Hp P) as [H|[H|H]]; [congruence | rewrite H; reflexivity | rewrite H; apply orb_true_r].
+    - destruct PH as [PH|[ka [PH K]]]; subst ph; [contradiction|].
+      destruct Hx as [Hx|[]]. subst x. simpl fst. rewrite K. simpl. rewrite Nat.eqb_refl. reflexivity.
+  Qed.
+  Lemma fold_left_ext {A B} (f g : A -> B -> A) l : forall a,
+    (forall x y, f x y = g x y) -> fold_left f l a = fold_left g l a.
+  Proof. induction l as [|x t IH]; intros a H; simpl; [reflexivity|]. rewrite H. apply IH. exact H. Qed.
+
+  Lemma find_cls_ks l1 pc l2 : ks = l1 ++ pc :: l2 ->
+    find_cls (k_id pc) (rch ks) = Some (rone pc (rch l2)).
+  Proof. intro E. rewrite E. apply find_cls_rch. rewrite <- E. exact C. Qed.
+
+  Lemma call_parent_gen l1 pc l2 d pkw s :
+    ks = l1 ++ pc :: l2 -> k_hinit pc = None -> k_deco pc = Some d ->
+    call_parent_init (rch ks) M (rone pc (rch l2)) pkw s
+    = if negb (wrapper_ok (boot pc d (rch l2)) pkw) then Err TypeErr
+      else own_loop (rch ks) M (k_id pc) pkw s.
+  Proof.
+    intros E NH D. unfold call_parent_init. cbn [rc_mro rone first_some].
+    rewrite (find_cls_ks l1 pc l2 E). cbn [rc_init rone]. rewrite NH, D. cbn [rc_meta rone].
+    rewrite D. unfold gen_init_inner. cbn [rc_id rone]. reflexivity.
+  Qed.
+
+  Lemma owner_step_gen pc d0 hc :
+    is_spec pc = true -> k_hinit pc = None ->
+    owner_step ks false kw1 (Ok (d0, hc)) pc
+    = match fold_left spec_step (filter (sel (k_id pc)) (managed ks)) (Ok d0) with
+      | Ok d' => Ok (d', hc) | Err e => Err e end.
+  Proof. intros S NH. unfold owner_step. rewrite S, NH. reflexivity. Qed.
+
+  Lemma valid_cond l1 pc l2 d pr :
+    ks = l1 ++ pc :: l2 -> k_deco pc = Some d ->
+    In pr (m_attrs (boot pc d (rch l2))) -> psel (k_id pc) (r_name pr) = true ->
+    opt_is (m_ovf (boot pc d (rch l2))) = true
+    \/ opt_eqb (m_key (boot pc d (rch l2))) (r_name pr) = true
+    \/ memb (r_name pr) (valid_kwargs (boot pc d (rch l2))) = true.
+  Proof.
+    intros E D Hp P. set (pm := boot pc d (rch l2)) in *.
+    assert (C2 : chain (pc :: l2)) by (apply (chain_app_r l1); rewrite <- E; exact C).
+    assert (W2 : wfc (pc :: l2)) by (apply (wfc_app_r l1); rewrite <- E; exact W).
+    pose proof (InvO_chain _ C2 W2) as I2. unfold InvO in I2.
+    rewrite (nearest_meta_rch_spec pc d l2 D) in I2. fold pm in I2. simpl mattrs in I2.
+    destruct I2 as [_ [_ [_ IA]]]. destruct (IA pr Hp) as [_ [N2 _]].
+    unfold psel in P. destruct (find_attr (r_name pr) (m_attrs M)) as [ir|] eqn:F; [|discriminate].
+    apply find_attr_Some in F. destruct F as [Fi Fn].
+    apply andb_prop in P. destruct P as [P P3]. apply andb_prop in P. destruct P as [P1 P2].
+    apply Nat.eqb_eq in P1.
+    destruct (M_attr ir Fi) as [_ [N1 [O1 _]]]. rewrite Fn in N1, O1. rewrite P1 in O1.
+    assert (EI : init_of (pc :: l2) (r_name pr) = init_of ks (r_name pr)).
+    { unfold init_of. rewrite E. rewrite (owner_cls_suffix l1 (pc :: l2) (r_name pr) (k_id pc)).
+      - reflexivity.
+      - rewrite <- E. exact C.
+      - rewrite <- E. exact O1.
+      - left. reflexivity. }
+    assert (RI : r_init pr = true) by (rewrite N2, EI, <- N1; exact P2).
+    destruct (opt_is (m_ovf pm)) eqn:OV; [left; reflexivity|]. right.
+    destruct (opt_eqb (m_key pm) (r_name pr)) eqn:K; [left; reflexivity|]. right.
+    apply memb_In. unfold valid_kwargs. apply in_map. apply filter_In. split; [exact Hp|].
+    rewrite RI, K. destruct (m_ovf pm); [discriminate | reflexivity].
+  Qed.
+
+  Lemma parent_step_sim l1 pc l2 kwm s :
+    ks = l1 ++ pc :: l2 -> k_hinit pc = None ->
+    (forall r, In r (m_attrs M) -> sel (k_id pc) (r_name r) = true ->
+               kw_get (r_name r) kwm = assoc (r_name r) kw1) ->
+    exists kw',
+      parent_step cur (rch ks) M (Ok (kwm, s)) (k_id pc)
+      = match owner_step ks false kw1 (Ok (s_dict s, s_hand s)) pc with
+        | Ok (d, hc) => Ok (kw', mkst d (s_post s) hc)
+        | Err e => Err e end
+      /\ (forall b, psel (k_id pc) b = false -> assoc b kw' = assoc b kwm)
+      /\ content kw' = content kwm.
+  Proof.
+    intros E NH HK. unfold parent_step. rewrite (find_cls_ks l1 pc l2 E).
+    cbn [q_plain_parent cur rc_meta rone].
+    destruct (k_deco pc) as [d|] eqn:D.
+    - (* spec parent *)
+      set (pm := boot pc d (rch l2)).
+      assert (C2 : chain (pc :: l2)) by (apply (chain_app_r l1); rewrite <- E; exact C).
+      assert (W2 : wfc (pc :: l2)) by (apply (wfc_app_r l1); rewrite <- E; exact W).
+      pose proof (InvO_chain _ C2 W2) as I2. unfold InvO in I2.
+      rewrite (nearest_meta_rch_spec pc d l2 D) in I2. fold pm in I2. simpl mattrs in I2.
+      destruct I2 as [_ [_ [N2 _]]].
+      change (map r_name (m_attrs pm) = managed (pc :: l2)) in N2.
+      set (X := flat_map (fun pr => pentry (k_id pc) kwm (r_name pr)) (m_attrs pm)).
+      set (kw' := fold_left (fun kw pr => kdel (k_id pc) kwm (r_name pr) kw) (m_attrs pm) kwm).
+      exists kw'.
+      destruct (kdel_fold (k_id pc) kwm (m_attrs pm) kwm) as [K1 K2]. fold kw' in K1, K2.
+      split; [|split; [exact K1 | exact K2]].
+      (* the inner loop *)
+      match goal with
+      | |- context [fold_left ?f (m_attrs pm) ?a] =>
+          assert (IF : fold_left f (m_attrs pm) a = Ok (X, kw'))
+      end.
+      { etransitivity;
+          [apply fold_left_ext with (g := inner_step (k_id pc)); intros [[? ?]|?] ?; reflexivity|].
+        apply (inner_fold (k_id pc) kwm (m_attrs pm) [] kwm).
+        + rewrite N2. unfold managed. apply NoDup_nodup_first.
+        + intros pr Hp. rewrite E. apply managed_suffix. rewrite <- N2. apply in_map. exact Hp.
+        + intros; reflexivity. }
+      rewrite IF.
+      + set (ph := (match m_key pm with
+                    | Some ka => if has ka X then [] else [(ka, None)]
+                    | None => [] end : kwargs)).
+        assert (EP : match m_key pm with
+                     | Some ka => if has ka X then X else X ++ [(ka, None)]
+                     | None => X end = X ++ ph).
+        { unfold ph. destruct (m_key pm) as [ka|]; [destruct (has ka X)|]; rewrite ?app_nil_r; reflexivity. }
+        rewrite EP. rewrite (call_parent_gen l1 pc l2 d (X ++ ph) s E NH D). fold pm.
+        assert (WO : wrapper_ok pm (X ++ ph) = true).
+        { apply wrapper_pkw.
+          - intros pr Hp P. apply (valid_cond l1 pc l2 d pr E D Hp P).
+          - unfold ph. destruct (m_key pm) as [ka|]; [|left; reflexivity].
+            destruct (has ka X); [left; reflexivity|]. right. exists ka. split; reflexivity. }
+        rewrite WO. simpl negb. cbv iota.
+        rewrite own_loop_sim.
+        * rewrite (owner_step_gen pc (s_dict s) (s_hand s) (is_spec_deco pc d D) NH).
+          destruct (fold_left spec_step (filter (sel (k_id pc)) (managed ks)) (Ok (s_dict s))); reflexivity.
+        * intros r Hr S. unfold X. rewrite (pkw_value (k_id pc) kwm (m_attrs pm) ph r Hr S).
+          -- apply value_sim; [exact Hr | apply HK; assumption].
+          -- rewrite N2. destruct (M_attr r Hr) as [_ [_ [O _]]].
+             unfold sel in S. apply andb_prop in S. destruct S as [S1 S2].
+             destruct (owner ks (r_name r)) as [o|] eqn:OO; [|discriminate]. simpl in S1.
+             apply Nat.eqb_eq in S1. subst o.
+             apply (managed_owned_suffix l1 pc l2); [rewrite <- E; exact C | | rewrite <- E; exact OO].
+             rewrite <- E, <- M_names. apply in_map. exact Hr.
+          -- unfold is_ph, ph. destruct (m_key pm) as [ka|]; [|left; reflexivity].
+             destruct (has ka X); [left; reflexivity | right; exists ka; reflexivity].
+    - (* plain class: not a parent of the loop *)
+      exists kwm. split; [|split; reflexivity].
+      unfold owner_step. rewrite (is_spec_none pc D). simpl. destruct s; reflexivity.
+  Qed.
+End Sim.
